@@ -4,19 +4,19 @@ package engine
 
 // Contracts for package engine, read by /verif/govc (comment-only file, build tag verif).
 
-//@ func (ProcessValueString).getString [C11 C05]
+//@ func (ProcessValueString).getString [C11]
 //@   ensures result == docToStr(box(ProcessValueString, v))
 //@ func (ProcessValueString).getNumber [C11]
 //@   ensures result == docToNum(box(ProcessValueString, v))
 //@ func (ProcessValueString).getBoolean [C11]
 //@   ensures result == docToBool(box(ProcessValueString, v))
-//@ func (ProcessValueNumber).getString [C11 C05]
+//@ func (ProcessValueNumber).getString [C11]
 //@   ensures result == docToStr(box(ProcessValueNumber, v))
 //@ func (ProcessValueNumber).getNumber [C11]
 //@   ensures result == docToNum(box(ProcessValueNumber, v))
 //@ func (ProcessValueNumber).getBoolean [C11]
 //@   ensures result == docToBool(box(ProcessValueNumber, v))
-//@ func (ProcessValueBoolean).getString [C11 C05]
+//@ func (ProcessValueBoolean).getString [C11]
 //@   ensures result == docToStr(box(ProcessValueBoolean, v))
 //@ func (ProcessValueBoolean).getNumber [C11]
 //@   ensures result == docToNum(box(ProcessValueBoolean, v))
